@@ -61,7 +61,7 @@ def stack_overflow_doc(stderr):
     its stack". That is a verdict about the library (the harness and the unchanged library are
     iterative there), reported through the same channel as a hang."""
     import re
-    m = re.search(r"thread 'script\|(C\d\d)\|([^|]*)\|([^|]*)\|n=(\d+)' has overflowed its stack", stderr)
+    m = re.search(r"thread 'script\|(C\d\d)\|([^|]*)\|([^|]*)\|n=(\d+)'(?: \(\d+\))? has overflowed its stack", stderr)
     if not m:
         return None
     prop, label, op, n = m.group(1), m.group(2), m.group(3), m.group(4)
@@ -440,7 +440,11 @@ def do_replay(root, env, path, run_engine):
                 print("replay: valgrind reports the invalid access again")
                 return 1
             return p.returncode
-        p = subprocess.run([exe, "replay", "--file", path], cwd=root, env=env)
+        p = subprocess.run([exe, "replay", "--file", path], cwd=root, env=env, stderr=subprocess.PIPE, text=True)
+        sys.stderr.write(p.stderr or "")
+        if p.returncode not in (0, 1) and stack_overflow_doc(p.stderr or ""):
+            print("replay: violation reproduced (the library call overflows the stack of the script thread again)")
+            return 1
         return p.returncode
     if eng == "E-LOOM":
         exe = os.path.join(root, "target", "release", "filoom")
